@@ -42,6 +42,11 @@ func (t *Trie) Insert(word string) {
 			if char > t.max {
 				t.max = char
 			}
+		default:
+			// Existing interior node (a longer word was inserted first): this prefix is now a word too.
+			if i == l-1 {
+				t.children[char].valid = true
+			}
 		}
 		t = t.children[char]
 	}
